@@ -21,7 +21,7 @@ import (
 type loopSig struct {
 	atoms  map[string]int  // multiset: "R:<rule>" call, "T:<rule>" token added, "." matchDot, "L" nested loop
 	chars  map[string]bool // character literals tested (tie-break only: -switch drops and adds tests)
-	owners []string        // inlined rules / captures whose extent contains the loop, innermost first (AST parsers only)
+	owners []string        // inlined rules / captures whose extent contains the loop, innermost first
 }
 
 func newLoopSig() *loopSig { return &loopSig{atoms: map[string]int{}, chars: map[string]bool{}} }
@@ -228,11 +228,8 @@ func (gp *GenProgram) matchLoops(body *ast.BlockStmt, self string, occ []*PNode,
 			}
 		}
 	}
-	var top []string
-	if gp.Ast {
-		top = []string{self}
-	}
-	walk(root, top)
+	// (a parser without AST still calls add for every rule - it counts tokens and moves the register - but not for captures)
+	walk(root, []string{self})
 	if len(chains) != len(occ) {
 		chains = nil
 	}
